@@ -96,6 +96,25 @@ func e1Specs(prop, tier string) []engines.E1Spec {
 			if prop == "C01" {
 				// symbolic links (quantifier of C01 names Symlink; "link targets" are part of the visible tree)
 				specs = append(specs, engines.E1Spec{Name: "L-links/none/rs20", Cfg: cfgNone, Setup: engines.LinkSetup(), Alphabet: engines.LinkAlphabet(), Depth: map[bool]int{true: 3, false: 4}[tier == "quick"], Oracles: or, Level: "raw"})
+				// histories that start on a tape STFS did not write (a standard tar archive): its members carry no STFS PAX records,
+				// so every record appended for them is derived from an index row of a different provenance (round-6 seed r6-C01:
+				// the in-memory form of a metadata-only record for such a member differed from its on-tape form)
+				fa := []ops.Op{{K: "chmod", P: "/d1/f0", N: 0o600}, {K: "chown", P: "/d1/f0"}, {K: "chtimes", P: "/d1/f0"}, {K: "rename", P: "/d1/f0", Q: "/d1/fm"}, {K: "put", P: "/d1/f0", C: "overwritten"},
+					{K: "chmod", P: "/f0", N: 0o600}, {K: "chmod", P: "/d1", N: 0o700}, {K: "rename", P: "/d1", Q: "/dm"}, {K: "remove", P: "/d1/f0"}, {K: "put", P: "/new", C: "added"}}
+				ff := []engines.ForeignSpec{{Format: "pax", RootStyle: "./", Shape: "(f(f))", NameClass: "short"}}
+				fd := 2
+				if tier != "quick" {
+					fd = 3
+					ff = nil
+					for _, format := range []string{"ustar", "pax", "gnu"} {
+						for _, style := range []string{"./", "/", "top/"} {
+							ff = append(ff, engines.ForeignSpec{Format: format, RootStyle: style, Shape: "(f(f))", NameClass: "short"})
+						}
+					}
+				}
+				for i := range ff {
+					specs = append(specs, engines.E1Spec{Name: fmt.Sprintf("F-foreign-start/%s/rs20", ff[i]), Cfg: cfgNone, Foreign: &ff[i], Alphabet: fa, Depth: fd, Oracles: or})
+				}
 			}
 		}
 		if prop == "C13" {
